@@ -10,6 +10,13 @@ pub uninterp spec fn compress_spec(s: CompressionScheme, c: Seq<u8>) -> Seq<u8>;
 pub uninterp spec fn decode_compressed(s: CompressionScheme, x: Seq<u8>) -> Seq<u8>;
 // what a decoder returns for payload x under scheme s: scheme `None` is the identity (compression_scheme.rs:72)
 pub open spec fn decode_spec(s: CompressionScheme, x: Seq<u8>) -> Seq<u8> { if s is None { x } else { decode_compressed(s, x) } }
+// how many of the available payload bytes x a READER-based decoder has consumed when it returns Ok (U-CODEC: `None` copies to EOF; the lz4 / bg4
+// paths stop at the end mark of the lz4 frame and do not look at bytes behind it).  The slice-based decoder is handed exactly x and ignores such a tail.
+pub uninterp spec fn consumed_compressed(s: CompressionScheme, x: Seq<u8>) -> nat;
+pub open spec fn consumed_spec(s: CompressionScheme, x: Seq<u8>) -> nat { if s is None { x.len() } else { consumed_compressed(s, x) } }
+// the payload is exactly one encoded unit: nothing behind what the reader-based decoder consumes.  Holds for scheme None by definition and for every
+// compressor output (U-CODEC: compress_from_slice ensures consumed_spec(s, c) == |c|), hence for every chunk serialize_chunk writes (U-CHUNKSER)
+pub open spec fn frame_exact(s: CompressionScheme, x: Seq<u8>) -> bool { consumed_spec(s, x) == x.len() }
 pub uninterp spec fn spec_choose(c: Seq<u8>) -> CompressionScheme;
 // 3-byte little-endian field
 pub open spec fn le3(s: Seq<u8>, o: int) -> nat { (s[o] as nat) + 256 * (s[o + 1] as nat) + 65536 * (s[o + 2] as nat) }
